@@ -232,8 +232,12 @@ def apply_op(op):
         a, b = op[3], op[4]
         holder = props_holder(s)
         spec = holder.pop(a)
-        holder[b] = dict(spec, source=spec["source"] if spec.get("source") is not None else a)
-        live.properties[b] = live.properties.pop(a)
+        moved = live.properties.pop(a)
+        # a property that was bound under `a` keeps `a` as its JSON name; one that was put in with update() / setdefault() and has not
+        # been reached by a call yet has no JSON name so far and takes the new key's
+        was_bound = getattr(moved, "source", None) is not None
+        holder[b] = dict(spec, source=spec["source"] if spec.get("source") is not None else (a if was_bound else None))
+        live.properties[b] = moved
     elif kind == "del_prop":
         a = op[3]
         del props_holder(s)[a]
